@@ -31,6 +31,17 @@ func GenShare(r *rand.Rand) ShareScenario {
 		rd := r.Intn(2) == 0
 		sc.Cfg.Rd = &rd
 	}
+	if !connectable && r.Intn(4) == 0 {
+		// the shape of ShareImpl's counterexamples: the source terminates (thread 0, the one park mode preempts at every lock boundary)
+		// while the only subscriber leaves and a new one joins and leaves (thread 1) - a reference or a flag of the old execution
+		// must not reach the new one
+		sc.Cfg.Rz = true
+		sc.Scripts = [][]string{{[]string{"complete", "error"}[r.Intn(2)]}, {"sub", "unsub", "sub", "unsub"}}
+		if r.Intn(2) == 0 {
+			sc.Scripts[0] = append([]string{"next"}, sc.Scripts[0]...)
+		}
+		return sc
+	}
 	np := 2 + r.Intn(2)
 	for p := 0; p < np; p++ {
 		var s []string
